@@ -114,19 +114,26 @@ def check_msg_case(case, acc, base=None):
 def msg_mutations(data, struct, tier, enc):
     """the enumerated mutation set of one corpus message"""
     yield ('none',)
-    for m, _ in faults.truncations(data):
-        yield m
+    big = len(data) > 1500      # the maximum-length message: structure fully, content thinly
+    for n in range(0, len(data) + 1, 13 if big else 1):
+        yield ('trunc', n)
     structural = faults.structural_positions(struct)
-    if tier == 'thorough':
+    if tier == 'thorough' and not big:
         positions = range(len(data))
     else:
-        positions = sorted(set(structural) | set(range(0, len(data), 7)))
+        positions = sorted(set(structural) | set(range(0, len(data), 97 if big else 7)))
     for m, _ in faults.substitutions(data, positions):
         yield m
-    for m, _ in faults.insert_delete(data):
-        yield m
+    if big:
+        near = sorted({q for p in structural for q in (p - 1, p, p + 1) if 0 <= q < len(data)})
+        for p in near:
+            yield ('del', p)
+            yield ('ins', p, 0x30)
+    else:
+        for m, _ in faults.insert_delete(data):
+            yield m
     # two deviations: pairs of structural positions (prefixes, sub-lengths, bitmap, TLV lengths)
-    spos = faults.structural_positions(struct, names=('prefix', 'len', 'bitmap'))
+    spos = faults.structural_positions(struct, names=('prefix', 'len', 'bitmap') if not big else ('prefix',))
     if tier == 'quick':
         bm = [p for p in spos if where_of(struct, p) == 'bitmap']
         spos = [p for p in spos if p not in bm] + bm[:4]
@@ -330,6 +337,8 @@ def tasks(tier, seed):
         for enc in ENCS:
             for hx in (False, True):
                 if tier == 'quick' and hx and enc == 'ascii':
+                    continue
+                if name == 'maxvar' and (enc, hx) not in (('latin_1', False), ('cp500', True)):
                     continue
                 for part in range(of):
                     ts.append({'t': 'msg', 'msg': name, 'enc': enc, 'hex': hx, 'part': part, 'of': of, 'tier': tier})
